@@ -794,6 +794,13 @@ func refreshRing(r *ringDescriber) error {
 			if h.connectAddress.Equal(existing.connectAddress) && h.nodeToNodeAddress().Equal(existing.nodeToNodeAddress()) {
 				// no host IP change
 				host.update(h)
+				if _, hasPool := r.session.pool.getPool(host); !hasPool && host.IsUp() {
+					// in the ring, held for up, and nobody connects to it: the node of the
+					// control connection is registered without a pool, and with
+					// DisableInitialHostLookup the pool it had (under the id the session
+					// made up for its contact point) has just been removed
+					r.session.startPoolFill(host)
+				}
 			} else {
 				// host IP has changed
 				// remove old HostInfo (w/old IP)
